@@ -227,9 +227,16 @@ func Performance(dpv *journal.Performance) float64 {
 func Perf(w io.Writer, j *journal.Builder, part date.Partition) *journal.Processor {
 	ds := set.FromSlice(j.Days(part.EndDates()))
 	running := 1.0
+	starts := part.StartDates()
 	return &journal.Processor{
 		DayEnd: func(d *journal.Day) error {
 			if !part.Contains(d.Date) {
+				return nil
+			}
+			// with --last the partition spans the whole window but lists only
+			// the last periods: days before the first listed period do not
+			// belong to its return
+			if len(starts) > 0 && d.Date.Before(starts[0]) {
 				return nil
 			}
 			running *= Performance(d.Performance)
